@@ -6,3 +6,5 @@ git -C /repo worktree add -q --detach $WT HEAD || exit 2
 git -C $WT apply /verif/seeded/$ID/patch.diff || exit 3
 for c in $CHECKS; do (cd /verif && VERIF_REPO=$WT ./check $c | tail -3 | cut -c1-260); done
 git -C /repo worktree remove --force $WT; git -C /repo worktree prune
+# the scratch run regenerated Gen/*.v from the changed tree: put the files of /repo back
+(cd /verif && PYTHONPATH=/repo/src /venv/bin/python harness/regen_all.py >/dev/null 2>&1)
